@@ -140,7 +140,7 @@ def _gen_ops(rng, hold, rows, props, n_ops):
         elif k < 0.54:
             ops.append({"op": "sorted", "reverse": b()})
         elif k < 0.64:
-            ops.append({"op": "append", "rows": _gen_rows(rng, props, rng.choice([1, 1, 2]), ties=False), "sort": b(),
+            ops.append({"op": "append", "rows": _gen_rows(rng, props, rng.choice([1, 1, 2, 3, 4]), ties=False), "sort": b(),
                         "how": rng.choice(["list", "item", "df"])})
         elif k < 0.76:
             ops.append({"op": "after", "t": t(), "incl": b()})
@@ -170,6 +170,16 @@ def generate(rng, tier):
             labels = rng.choice(["default", "shifted", "shuffled", "dup"])
             cases.append({"kind": "history", "cls": ci, "cls_name": c.__name__, "rows": rows, "labels": labels,
                           "ops": _gen_ops(rng, hold, rows, props, rng.choice([3, 5, 8]) if tier == "quick" else rng.choice([5, 12, 25]))})
+        # operations on an EMPTY receiver (freshly empty, or emptied by a filter): append of several unsorted rows with and
+        # without sort, then further operations on the result
+        for srt in (True, False):
+            rows3 = _gen_rows(rng, props, 3, ties=False)
+            rows3.sort(key=lambda r: -r["offset"])
+            pre = [] if rng.random() < 0.5 else [{"op": "after", "t": 10.0 ** 9, "incl": False}]
+            cases.append({"kind": "history", "cls": ci, "cls_name": c.__name__, "rows": [] if not pre else _gen_rows(rng, props, 2),
+                          "labels": "default",
+                          "ops": pre + [{"op": "append", "rows": rows3, "sort": srt, "how": rng.choice(["list", "df"])},
+                                        {"op": "first"}, {"op": "getint", "i": 0}, {"op": "len"}]})
         for kind in ("items", "from_dict", "empty", "nil"):
             n = rng.choice([0, 1, 2, 4])
             cases.append({"kind": "ctor", "ctor": kind, "cls": ci, "cls_name": c.__name__, "n": n,
